@@ -983,6 +983,10 @@ func judge(run verdictSink, s *seqSpec, res *seqResult) {
 			}
 			m, err := wire.DecodeMessage(pf, payload)
 			if err != nil {
+				if len(payload) == 0 && r.class != "" {
+					run.Violation("C14:reply-frame-without-message:"+s.leg+":"+s.proto+":"+r.class, fmt.Sprintf("the one reply frame (%d bytes, headers %v) consists of the header block only: no REPLY / EXCEPTION message follows it (%s)", len(f), hdrNames(hdrs), r.kindName()), witness(r, nil))
+					continue
+				}
 				run.Violation("C14:reply-unparseable:"+s.leg+":"+s.proto, "the reference reader cannot parse the reply completely: "+err.Error(), witness(r, nil))
 				continue
 			}
